@@ -5,6 +5,19 @@ PROPS = {
         sidecars=["contracts.transform_map"],
         driver="c08",
         level="proof",
+        level_text=(
+            "Deductive: every function of transform/map.py is verified against a sidecar contract for all step maps, "
+            "positions and sides (unbounded ints and lists); the property's clauses (documented rule, flags, recover "
+            "values, for_each enumeration, composition, append/invert/slice) are post-conditions. The mirror round "
+            "trip and monotonicity are lemmas over the contracts where proved, otherwise checked exhaustively on all "
+            "maps with <= 3 ranges by the bounded cross-check (labelled bounded in the evidence)."
+        ),
+        level_note=(
+            "Trusted: z3/cvc5 `unsat`, pyvc's encoding of the Python subset (assumptions A1-A10 listed in evidence), "
+            "exact true division below 2^53, list-valued fields modelled as owned values. Requires clauses (well-formed "
+            "ranges, mirror pairs of equal shape, <= 65536 ranges) are assumptions about callers."
+        ),
+        technique="contract-based deductive verification (pyvc VCs from source -> z3) + bounded runtime-contract cross-check",
         shards={"StepMap._map": 8, "Mapping.append_mapping": 4, "Mapping.append_mapping_inverted": 4, "Mapping._map": 8},
         assumptions=["A1", "A2", "A3", "A4", "A5", "A6", "A8", "A10", "H1", "Z3", "PYVC"],
         explanation=(
@@ -16,3 +29,5 @@ PROPS = {
         ),
     ),
 }
+
+NOT_APPLICABLE = {}
